@@ -223,26 +223,33 @@ class StrFold:
                             return None
                         x = raw[idx]
                         if not (isinstance(x, tuple) and x[0] == "call" and x[2] and isinstance(x[2][0], tuple) and x[2][0][0] == "lit" and isinstance(x[2][0][1], int)
-                                and not isinstance(x[2][0][1], bool) and x[2][0][1] >= 0):
+                                and not isinstance(x[2][0][1], bool)):
                             return None
                         kind = str(x[1]).rsplit("::", 1)[-1]
                         if kind not in ("new_display", "new_lower_hex", "new_upper_hex"):
                             return None
-                        txt = {"new_display": "%d", "new_lower_hex": "%x", "new_upper_hex": "%X"}[kind] % x[2][0][1]
+                        val = x[2][0][1]
+                        if val < 0 and kind != "new_display":
+                            return None                        # two's complement rendering of negative numbers: not modelled
                         fl = piece["flags"] if piece["flags"] is not None else (0x20 | (3 << 29))
-                        if fl & ((1 << 21) | (1 << 23)):
-                            return None                        # explicit plus sign / alternate form: not modelled
+                        if fl & (1 << 23):
+                            return None                        # alternate form: not modelled
+                        sign = "-" if val < 0 else ("+" if fl & (1 << 21) else "")
+                        digits = {"new_display": "%d", "new_lower_hex": "%x", "new_upper_hex": "%X"}[kind] % abs(val)
                         width = piece["width"] or 0
-                        fill = "0" if fl & (1 << 24) else chr(fl & 0x1FFFFF)
                         align = (fl >> 29) & 3
-                        if len(txt) < width:
-                            pad = fill * (width - len(txt))
-                            if fl & (1 << 24) or align in (1, 3):
-                                txt = pad + txt                  # numbers are right-aligned by default
-                            elif align == 0:
-                                txt = txt + pad
-                            else:
-                                return None
+                        if fl & (1 << 24):
+                            txt = sign + digits.rjust(max(0, width - len(sign)), "0")      # sign-aware zero padding: the sign comes first
+                        else:
+                            txt = sign + digits
+                            if len(txt) < width:
+                                pad = chr(fl & 0x1FFFFF) * (width - len(txt))
+                                if align in (1, 3):
+                                    txt = pad + txt              # numbers are right-aligned by default
+                                elif align == 0:
+                                    txt = txt + pad
+                                else:
+                                    return None
                         out.append(("c", txt))
                     else:
                         out.append(("c", piece))
